@@ -48,6 +48,7 @@ type C20Case struct {
 	MaxRetries int      `json:"max_retries,omitempty"`
 	V6         bool     `json:"v6,omitempty"`
 	Wild       bool     `json:"wildcard_listen,omitempty"`
+	HostName   bool     `json:"host_name_listen,omitempty"` // Address is a host name that resolves to the relay host's address (of both families)
 	IP4Form    bool     `json:"relay_ip_4_bytes,omitempty"` // the configured IPv4 relay address is a 4-byte net.IP (net.IP.To4, netip.Addr.AsSlice)
 	Rand       []uint32 `json:"rand"`                       // scripted Intn outputs (0xFFFFFFFF = n-1, others reduced mod n)
 	Pre        []int    `json:"pre,omitempty"`
@@ -134,6 +135,9 @@ func runC20Inner(c *C20Case) (string, string) { //nolint:cyclop,gocyclo,maintidx
 		relayIP = relayIP.To4()
 	}
 	bindIP := net.ParseIP(listen)
+	if c.HostName && !c.Wild {
+		listen = "relay.sim" // resolves to 10.9.0.1 and fd00:9::1
+	}
 	rnd := &scriptedRand{vals: c.Rand}
 	var gen turn.RelayAddressGenerator
 	switch c.Gen {
@@ -158,14 +162,14 @@ func runC20Inner(c *C20Case) (string, string) { //nolint:cyclop,gocyclo,maintidx
 	turnSock := nullPacketConn{}
 	evens := 0
 	_ = evens
-	busy := func(kind string, port int) bool {
+	busy := func(kind string, port int, fam6 bool) bool {
 		for _, p := range c.Pre {
-			if p == port {
+			if p == port && fam6 == c.V6 {
 				return true
 			}
 		}
 		for _, l := range live {
-			if l.kind == kind && l.port == port {
+			if l.kind == kind && l.port == port && l.fam6 == fam6 {
 				return true
 			}
 		}
@@ -218,7 +222,7 @@ func runC20Inner(c *C20Case) (string, string) { //nolint:cyclop,gocyclo,maintidx
 				return "even-port-odd", fmt.Sprintf("%s: GetRandomEvenPort returned %d", ctx, port)
 			case c.Gen == "range" && (port < c.MinPort || port > c.MaxPort):
 				return "port-outside-range", fmt.Sprintf("%s: GetRandomEvenPort returned %d, the configured range is [%d,%d]", ctx, port, c.MinPort, c.MaxPort)
-			case busy("udp", port):
+			case busy("udp", port, false):
 				return "port-shared", fmt.Sprintf("%s: GetRandomEvenPort returned port %d which a live allocation holds", ctx, port)
 			}
 			if c.Gen == "range" {
@@ -235,7 +239,7 @@ func runC20Inner(c *C20Case) (string, string) { //nolint:cyclop,gocyclo,maintidx
 		var err error
 		var res *liveRes
 		opU, opT, op6 := netU, netT, c.V6
-		if op.OtherFam && c.Gen != "none" {
+		if op.OtherFam {
 			op6 = !c.V6
 			opU, opT = map[bool]string{true: "udp6", false: "udp4"}[op6], map[bool]string{true: "tcp6", false: "tcp4"}[op6]
 		}
@@ -330,7 +334,7 @@ func runC20Inner(c *C20Case) (string, string) { //nolint:cyclop,gocyclo,maintidx
 		}
 		if err != nil {
 			// failing is fine, but it must fail cleanly: nothing left open
-			if op.Req != 0 && !busy(op.Kind, op.Req) && op6 == c.V6 {
+			if op.Req != 0 && !busy(op.Kind, op.Req, op6) && op6 == c.V6 {
 				return "refused-free-port", fmt.Sprintf("%s: requested port %d is free but the call failed: %v", ctx, op.Req, err)
 			}
 			for _, s := range n.Socks()[socksBefore:] {
@@ -353,19 +357,23 @@ func runC20Inner(c *C20Case) (string, string) { //nolint:cyclop,gocyclo,maintidx
 		res.fam6 = op6
 		shared := false
 		for _, l := range live {
+			if l.kind == res.kind && l.port == res.port && l.fam6 != res.fam6 && c.Gen == "none" {
+				continue // the pass-through generator advertises the two sockets' own, different addresses
+			}
 			if l.kind == res.kind && l.port == res.port && l.fam6 != res.fam6 {
-				// Address "::" serves both families: [::]:P and 0.0.0.0:P are two sockets, advertised
-				// as one transport address RelayAddress:P (known finding, see DESIGN.md)
-				if !(c.V6 && c.Wild) {
+				// Address "::" - or a host name with an address of each family - serves both families:
+				// [::]:P and 0.0.0.0:P are two sockets, advertised as one transport address
+				// RelayAddress:P (known finding, see DESIGN.md)
+				if !(c.V6 && c.Wild) && !c.HostName {
 					return "port-shared", fmt.Sprintf("%s: port %d handed out for %s while a live allocation of the other family holds it: both are advertised as %v:%d", ctx, res.port, conf.Network, relayIP, res.port)
 				}
-				if c20Known != nil && c20Known("C20.ipv6-wildcard-address-one-port-both-families") {
+				if c20Known != nil && c20Known("C20.address-of-both-families-one-port") {
 					shared = true
 
 					break
 				}
 
-				return "ipv6-wildcard-address-one-port-both-families", fmt.Sprintf("%s: port %d handed out for %s while a live allocation of the other family holds it: both are advertised as %v:%d", ctx, res.port, conf.Network, relayIP, res.port)
+				return "address-of-both-families-one-port", fmt.Sprintf("%s: port %d handed out for %s while a live allocation of the other family holds it: both are advertised as %v:%d", ctx, res.port, conf.Network, relayIP, res.port)
 			}
 			if l.kind == res.kind && l.port == res.port {
 				if res.lis != nil && res.lis.Reuse && l.lis != nil && l.lis.Reuse {
@@ -467,6 +475,7 @@ func genC20(rt *rapid.T) *C20Case {
 	c.V6 = rapid.IntRange(0, 3).Draw(rt, "v6") == 0
 	c.Wild = rapid.IntRange(0, 2).Draw(rt, "wild") == 0
 	c.IP4Form = rapid.Bool().Draw(rt, "ip4form")
+	c.HostName = !c.Wild && rapid.IntRange(0, 4).Draw(rt, "hostName") == 0
 	if c.Gen == "range" {
 		width := rapid.OneOf(rapid.IntRange(0, 4), rapid.IntRange(0, 40), rapid.IntRange(0, 65534)).Draw(rt, "width")
 		c.MinPort = rapid.OneOf(rapid.IntRange(1, 65535), rapid.SampledFrom([]int{1, 2, 1023, 1024, 49152, 65534, 65535})).Draw(rt, "min")
@@ -496,7 +505,7 @@ func genC20(rt *rapid.T) *C20Case {
 				op.Req = rapid.IntRange(1, 65535).Draw(rt, "req")
 			}
 		}
-		if (op.Kind == "udp" || op.Kind == "tcp") && c.Gen != "none" && rapid.IntRange(0, 3).Draw(rt, "otherFam") == 0 {
+		if (op.Kind == "udp" || op.Kind == "tcp") && rapid.IntRange(0, 3).Draw(rt, "otherFam") == 0 {
 			op.OtherFam = true
 			if len(c.Ops) > 0 && rapid.IntRange(0, 1).Draw(rt, "otherFamSamePort") == 0 {
 				// the port an earlier call asked for
